@@ -1620,7 +1620,7 @@ Lemma control_pdu_loss_fault_free :
   let n := (zlen data + seg - 1) / seg in
   (ft = mkFault 0 (n + 1) 0 0 \/ ft = mkFault 0 (n + 2) 0 0 \/ ft = mkFault 1 0 0 0 \/ ft = mkFault 1 1 0 0) ->
   0 < r_ack_ms rs -> 0 < r_ack_ms rd ->
-  (bits = 8 \/ bits = 16 \/ bits = 32) -> 0 <= seq0 < 2 ^ bits -> 1 <= seg ->
+  (bits = 8 \/ bits = 16 \/ bits = 32) -> 0 <= seq0 < 2 ^ bits -> 1 <= seg -> 6 <= derived ->
   (r_cktype rs = CK_CRC32 \/ r_cktype rs = CK_CRC32C \/ r_cktype rs = CK_NULL \/ r_cktype rs = CK_MODULAR) ->
   bytes_ok data = true ->
   l_id cd = pr_dst p -> get_remote (l_remotes cd) (l_id cs) = Some rd -> length dn = 1%nat ->
@@ -1631,7 +1631,7 @@ Lemma control_pdu_loss_fault_free :
     fault_free_ok dn data res = true.
 Proof.
   intros cs cd seq0 bits p rs rd sn dn data tick ft w large derived seg
-         Hrs Hn Hsn Hdn Hmsgs Hmode Hls Hld Htick n Hft Hacks Hackd Hbits Hseq Hseg Hck Hbytes Hid Hrd Hlen
+         Hrs Hn Hsn Hdn Hmsgs Hmode Hls Hld Htick n Hft Hacks Hackd Hbits Hseq Hseg Hd6 Hck Hbytes Hid Hrd Hlen
          Hfh Hfs Hfd.
   destruct dn as [|x [|x' dn']]; try discriminate Hlen.
   set (fss := [(sn, File data)]).
@@ -1641,7 +1641,7 @@ Proof.
   destruct (ck_agree (r_cktype rs) data seg Hck Hseg) as (cks & C1 & C2).
   set (cf := mkSconf (l_id cs) w (pr_dst p) w seq0 (bits / 8) ACKED large (r_crc rs)).
   set (clo := match pr_closure p with Some b => b | None => r_closure rs end).
-  destruct (first_call_a cs seq0 bits fss p rs sn [x] data Hrs Hn Hlook Hmode Hbits Hseq Hseg)
+  destruct (first_call_a cs seq0 bits fss p rs sn [x] data Hrs Hn Hlook Hmode Hbits Hseq Hseg Hd6)
     as (s1 & s3 & P1 & P2 & HI).
   rewrite Hmsgs in P2.
   assert (Hdst : sc_dst cf = l_id cd) by (symmetry; exact Hid).
@@ -1679,7 +1679,7 @@ Lemma control_pdu_loss :
   let n := (zlen data + seg - 1) / seg in
   (ft = mkFault 0 (n + 1) 0 0 \/ ft = mkFault 0 (n + 2) 0 0 \/ ft = mkFault 1 0 0 0 \/ ft = mkFault 1 1 0 0) ->
   0 < r_ack_ms rs -> 0 < r_ack_ms rd ->
-  (bits = 8 \/ bits = 16 \/ bits = 32) -> 0 <= seq0 < 2 ^ bits -> 1 <= seg ->
+  (bits = 8 \/ bits = 16 \/ bits = 32) -> 0 <= seq0 < 2 ^ bits -> 1 <= seg -> 6 <= derived ->
   (r_cktype rs = CK_CRC32 \/ r_cktype rs = CK_CRC32C \/ r_cktype rs = CK_NULL \/ r_cktype rs = CK_MODULAR) ->
   bytes_ok data = true ->
   l_id cd = pr_dst p -> get_remote (l_remotes cd) (l_id cs) = Some rd -> length dn = 1%nat ->
@@ -1690,10 +1690,10 @@ Lemma control_pdu_loss :
     delivered_ok dn data res = true /\ y_errs (fst res) = [].
 Proof.
   intros cs cd seq0 bits p rs rd sn dn data tick ft w large derived seg
-         Hrs Hn Hsn Hdn Hmsgs Hmode Hls Hld Htick n Hft Hacks Hackd Hbits Hseq Hseg Hck Hbytes Hid Hrd Hlen
+         Hrs Hn Hsn Hdn Hmsgs Hmode Hls Hld Htick n Hft Hacks Hackd Hbits Hseq Hseg Hd6 Hck Hbytes Hid Hrd Hlen
          Hfh Hfs Hfd.
   destruct (control_pdu_loss_fault_free cs cd seq0 bits p rs rd sn dn data tick ft Hrs Hn Hsn Hdn Hmsgs Hmode Hls Hld Htick
-              Hft Hacks Hackd Hbits Hseq Hseg Hck Hbytes Hid Hrd Hlen Hfh Hfs Hfd) as [fuel H].
+              Hft Hacks Hackd Hbits Hseq Hseg Hd6 Hck Hbytes Hid Hrd Hlen Hfh Hfs Hfd) as [fuel H].
   exists fuel. exact (fault_free_delivered _ _ _ H).
 Qed.
 
@@ -1713,7 +1713,7 @@ Corollary control_pdu_loss_one_idle_round :
   (ft = mkFault 0 (n + 1) 0 0 \/ ft = mkFault 0 (n + 2) 0 0 \/ ft = mkFault 1 0 0 0 \/ ft = mkFault 1 1 0 0) ->
   r_ack_ms rs <= tick -> r_ack_ms rd <= tick ->
   0 < r_ack_ms rs -> 0 < r_ack_ms rd ->
-  (bits = 8 \/ bits = 16 \/ bits = 32) -> 0 <= seq0 < 2 ^ bits -> 1 <= seg ->
+  (bits = 8 \/ bits = 16 \/ bits = 32) -> 0 <= seq0 < 2 ^ bits -> 1 <= seg -> 6 <= derived ->
   (r_cktype rs = CK_CRC32 \/ r_cktype rs = CK_CRC32C \/ r_cktype rs = CK_NULL \/ r_cktype rs = CK_MODULAR) ->
   bytes_ok data = true ->
   l_id cd = pr_dst p -> get_remote (l_remotes cd) (l_id cs) = Some rd -> length dn = 1%nat ->
